@@ -65,7 +65,10 @@ func (r *Run) invoke(st *State, fr *Frame, cc *ssa.CallCommon, fnv Val, args []V
 		if f.Fn != nil {
 			return r.callFunction(st, fr, f.Fn, nil, append([]Val{f.Recv}, args...), dst, in, cc)
 		}
-		return r.libCall(st, fr, f.Name, f.Recv, args, sig, dst, in, cc)
+		r.curBound = f.Term
+		forks := r.libCall(st, fr, f.Name, f.Recv, args, sig, dst, in, cc)
+		r.curBound = T{}
+		return forks
 	case T:
 		if c, ok := e.closures[f.S]; ok {
 			return r.callFunction(st, fr, c.Fn, c.Binds, args, dst, in, cc)
@@ -389,7 +392,7 @@ func (e *Engine) calleeName(cc *ssa.CallCommon) string {
 // usesPathGhosts: does a clause mention ghost state that is local to one execution of a function body.
 func usesPathGhosts(expr string) bool {
 	for _, g := range []string{"spawned(", "calls(", "lastres(", "lastarg(", "lastsent(", "lastrecv(", "lasterr(", "lastrand(",
-		"icalls(", "ilast(", "atomics(", "apre(", "apost(", "aop(", "panicking(", "nolocks(", "held(", "heldW(", "heldR(", "heldcond(", "mapkey(", "mapidx(", "now(", "atentry(", "captured("} {
+		"icalls(", "ilast(", "atomics(", "apre(", "apost(", "aop(", "panicking(", "nolocks(", "held(", "heldW(", "heldR(", "heldcond(", "mapkey(", "mapidx(", "now(", "atentry(", "nevercancelled(", "captured("} {
 		if strings.Contains(expr, g) {
 			return true
 		}
@@ -539,6 +542,7 @@ func (r *Run) applyContract(st *State, fr *Frame, fn *ssa.Function, blk *Block, 
 		e.emitWith(st, fmt.Sprintf("%s/requires@%s#%d:holds", caller, callee, ord), "", nil, goal, "caller holds "+cl.Expr, e.posOf(in), []string{"C11"}, cl)
 	}
 	e.usedContracts[callee] = true
+	st.Counters["calls:"+callee] = App(SInt, "+", r.counter(st, "calls:"+callee), IntLit(1))
 	var forks []*State
 	// panics clauses (evaluated in the pre-state)
 	var panicConds []T
